@@ -1060,6 +1060,29 @@ fn mode_datacodec(_seed: u64, limit: usize) -> Vec<serde_json::Value> {
         // equalsData is reflexive on the re-built value and agrees with Data::integer
         expect_builtin(&mut fails, F::EqualsData, sem, &[d.clone(), Value::data(Data::integer(i.clone()))], format!("iData {txt}, Data::integer {txt}"), Some(Value::bool(true)));
     }
+    // constrData / unConstrData: inverse on every representable constructor index, failure (not clamping) beyond
+    let fs = Constant::ProtoList(Type::Data, vec![Constant::Data(Data::integer(7.into()))]);
+    for i in ints() {
+        if fails.len() >= limit { break; }
+        let args = [Value::integer(i.clone()), Value::Con(Rc::new(fs.clone()))];
+        let representable = i >= BigInt::from(0) && i < (BigInt::from(1) << 64u32);
+        match call_builtin(F::ConstrData, sem, &args) {
+            Err(p) => fails.push(fail("datacodec", "constrData panicked", serde_json::json!({"index": format!("{i}")}), "a value or a failure".into(), p)),
+            Ok(Ok(d)) => {
+                if !representable {
+                    fails.push(fail("datacodec", "constrData accepts a constructor index it cannot represent", serde_json::json!({"index": format!("{i}")}), "failure".into(), format!("{d:?}")));
+                } else {
+                    let want = Value::Con(Rc::new(Constant::ProtoPair(Type::Integer, Type::List(Rc::new(Type::Data)), Rc::new(Constant::Integer(i.clone())), Rc::new(fs.clone()))));
+                    expect_builtin(&mut fails, F::UnConstrData, sem, &[d], format!("constrData {i} [I 7]"), Some(want));
+                }
+            }
+            Ok(Err(_)) => {
+                if representable {
+                    fails.push(fail("datacodec", "constrData rejects a representable constructor index", serde_json::json!({"index": format!("{i}")}), "a data value".into(), "failure".into()));
+                }
+            }
+        }
+    }
     println!("BOUNDS mode=datacodec {n} boundary integers (|n| up to 2^200): unIData.iData, serialiseData.iData against the canonical CBOR integer encoding, equalsData");
     fails
 }
